@@ -68,6 +68,13 @@ def gen_archive(rng: Rng, tier, want_multi=None, want_dirs=None, encrypted=None,
                     for _ in range(r.randint(1, 2)):
                         deep = arc + "/" + "/".join(gen.gen_component(r, "ascii") + "_" for _ in range(r.randint(2, 3)))
                         s["ops"].append({"op": "writestr", "name": deep, "content": gen.gen_content(r, block=knobs["block"], maxlen=maxlen), "as": "bytes"})
+            nested = [n for n in used if "/" in n]
+            if j > 0 and nested and r.chance(0.35):
+                # a member of this session (another folder) next to a member of an earlier one, in a directory that has no
+                # entry of its own: whichever worker comes first has to create it
+                parent = r.pick(nested).rsplit("/", 1)[0]
+                s["ops"].append({"op": "writestr", "name": parent + "/s%d%s" % (j, gen.gen_component(r, "ascii")),
+                                 "content": gen.gen_content(r, block=knobs["block"], maxlen=maxlen), "as": "bytes"})
             if r.chance(0.3):
                 nm = "w%d%s" % (j, gen.gen_component(r, "ascii"))
                 s["ops"].append({"op": "write", "name": nm, "content": gen.gen_content(r, block=knobs["block"], maxlen=maxlen),
@@ -254,10 +261,15 @@ def gen_sequence(r, model, maxlen=5, weights=None):
 class Session:
     """One SevenZipFile read session on a fresh simulated device."""
 
-    def __init__(self, built: Built, open_kind, knobs, mirror_dir=None, password="__model__", mp=False):
+    def __init__(self, built: Built, open_kind, knobs, mirror_dir=None, password="__model__", mp=False, sched=None):
         py7zr = import_py7zr()
         self.py7zr = py7zr
-        self.fs = SimFS(buffer_size=knobs.get("bufsize", 8192))
+        hook = None
+        if sched is not None:
+            def hook(dev, kind, off, n):
+                if kind == "r" and sched.current != 0:
+                    sched.yield_(("io", dev.handle_id & 0xFF))
+        self.fs = SimFS(buffer_size=knobs.get("bufsize", 8192), hook=hook)
         self.path = READ_PATH
         if mirror_dir is not None:
             self.path = os.path.join(mirror_dir, "read.7z")
@@ -265,7 +277,15 @@ class Session:
         else:
             self.fs.add(self.path, built.image)
         self.anonymous = open_kind == "anon"
-        self.seams = Seams(fs=self.fs, blocksize=knobs.get("block"), memlimit=knobs.get("chunk"), inline_threads=True)
+        if sched is not None:
+            # py7zr's worker threads are real threads stepped by the baton-passing scheduler instead of running inline
+            import py7zr.py7zr as P
+            from simkit.sched import SchedTime, make_queue_module, make_thread_class
+
+            extra = [(P, "Thread", make_thread_class(sched)), (P, "queue", make_queue_module(sched)), (P, "time", SchedTime(sched))]
+            self.seams = Seams(fs=self.fs, blocksize=knobs.get("block"), memlimit=knobs.get("chunk"), extra=extra)
+        else:
+            self.seams = Seams(fs=self.fs, blocksize=knobs.get("block"), memlimit=knobs.get("chunk"), inline_threads=True)
         self.seams.__enter__()
         pw = built.password if password == "__model__" else password
         try:
